@@ -1,4 +1,60 @@
-"""B-index: accelerated lookup tables (DESIGN.md 6 C17 / C01).
+"""B-index: accelerated lookup tables (DESIGN.md 6 C17; safety/termination of every function below: C01).
+
+Oracles: vx/specs/index.rs (package-index hash table of DWARF 5 7.3.5.3 as pure mathematics: `probe`, `search`,
+`present`, `open_addressed`, with the proved theorems search-sound / search-complete / search-is-scan) and the spec
+functions in this file (`index_section_kind`: DWARF 5 table 7.1 + GNU DebugFission v2 numbering; `arange_skip`,
+`arange_first_tuple`: DWARF 5 6.1.2; `pubstuff_header_at` / `pubstuff_entry_at`: DWARF 4 6.1.1 / 7.19).
+
+Functions under contract (real text of /repo/src/read/{index,aranges,lookup,pubnames,pubtypes,names}.rs):
+  index.rs    UnitIndex::parse  (v2/v5 header, counts, slot count power of two and > unit count, section-kind row, the four
+                                 table windows, every reject case, acceptance of every well-formed index; establishes wf())
+              UnitIndex::find   (== the standard's probing search on EVERY table; a hit is a present entry with that slot's
+                                 row; absent => None; on an open-addressed table find == exhaustive scan; <= slot_count probes)
+              UnitIndex::sections (1-based row -> byte offset (row-1)*N*4 in both contribution tables, no overflow, row range)
+              UnitIndexSectionIterator::next (column k = k-th section kind, k-th offset, k-th size), version/.._count accessors
+  aranges.rs  DebugAranges::{headers, header}, ArangeHeaderIter::next (iterator protocol, section offsets),
+              ArangeHeader::parse (fields, version 2|3, address size in {1,2,4,8}, segment size 0, first tuple at the next
+              multiple of the tuple size, entries window, exact consumption), ArangeHeader::{entries, accessors},
+              ArangeEntry::parse (first tuple that is not (0,0); end of set; never an error; loop measure = remaining bytes),
+              ArangeEntryIter::{next_raw, convert_raw, next} (tombstones -1/-2 skipped, end = begin+length via add_sized)
+  lookup.rs   trait LookupParser (contract layer: header_at / entry_at relations, progress, frame),
+              LookupEntryIter::next (generic in the parser; iterator protocol; the entry satisfies the parser's entry_at),
+              PubStuffParser::{parse_header, parse_entry} (header and entry layout, name is a window of the section,
+              zero offset ends the set), trait PubStuffEntry::new
+  pubnames.rs / pubtypes.rs   Pub{Names,Types}Entry::{new, name, die_offset, unit_header_offset}, Pub{Names,Types}EntryIter::next
+  names.rs    NameBucketIter::{new, next}, NameHashIter::{new, next} (bucket start, chain ends when hash % bucket_count
+              changes or name_count is reached, no division by zero, never an error once constructed from a well-formed index)
+
+Findings (native reproducers native/src/bin/f_index_{1,2,3}.rs):
+  F-index-1 (= DESIGN F10) ArangeEntry::parse recursed once per (0,0) tuple (stack depth proportional to the input; 1 MiB of
+            zero tuples aborted with a stack overflow).  FIXED in /repo 67ea7a2 (tail call -> `continue` in a loop); the
+            contract now carries a loop invariant (`within`, arange_skip bookkeeping) and `decreases input.rv().len`.
+  F-index-2 [C01:iter-err-empties] of ArangeEntryIter::next FAILS (OPEN, registered as a known finding): the error of
+            convert_raw leaves through `?` without emptying the input, so the documented "all subsequent calls return
+            Ok(None)" does not hold (the unit tests test_parse_entry_overflow_32/64 pin the undocumented behaviour).
+            This is the one obligation with which `run.py index` exits 1 on the current tree.
+  F-index-3 UnitIndex::find(0) returned Some(row of an unused slot).  FIXED in /repo 9360055 (`id == 0 => None`);
+            [C17:find-zero-id-absent] now verifies; `find == search` is stated for the keys that can be present (id != 0).
+
+Assumed (TRUSTED = core's ledger, nothing added): verif_unreachable, Result::and_then, reader_clone (a cloned reader has the
+same view).  Rewrites beyond the standard rules, all logged: R-CLONE (reader clones), R-CONSTLEN (array length literal,
+Verus bug with const lengths in nested modules; re-checked by lemma_section_count_max), R-IMPL (`impl Iterator for
+UnitIndexSectionIterator` -> contract-less twin trait, as eslice.py), R-OFFSET for the `<R, Offset>` impl shape and
+R-CTORFN (as units.py), R-VIS (`pub(crate) trait ReaderAddress` -> pub, Verus crash, as lists.py), R-SIZED
+(`trait PubStuffEntry: Sized`), R-FIELDS (NameIndex.abbreviations dropped: Vec-backed, untouched by the extracted fns).
+Two verified strengthenings of core items inside this batch (strengthen_core): `usize::from_u64` never fails (64-bit);
+`read_address` fails only at end of input.
+
+Not decided here: NameIndex::new (only its size arithmetic is stated, as NameIndex::wf(), and *assumed* by the
+[C01:no-div-by-zero] clauses), NameEntry::parse / NameAbbreviations::parse / case_folding_djb_hash, DebugCuIndex/DebugTuIndex
+wrappers, `Section::dwp_range` and DwarfPackage assembly, DebugStrOffsets/DebugAddr (F4, owned by the lists batch), the
+`Iterator`/`FallibleIterator` adaptor impls (one-line delegations), the full-cycle property of the probe sequence
+(slot_count a power of two and an odd stride => the slot_count probes visit every slot): `find` is proved equal to the
+standard's search cut off after slot_count probes, and that cut-off search is proved sound on every table and complete on
+every open-addressed table; that the cut-off loses nothing on an *arbitrary* table (exhausting all probes implies the key is
+absent) needs the full-cycle lemma, which is not mechanised.  The code does validate what termination needs
+(power of two, slot_count > unit_count: [C17:index-reject-slot-count]) and the probe loop is bounded by slot_count anyway;
+stack depth in general (outside Verus' model).
 """
 import re
 from lib import *
@@ -174,10 +230,10 @@ use vstd::std_specs::iter::IteratorSpec;''')
     imp.insert_after('for _ in ', 'vit: ')
     imp.splice('find', ret='res', requires=['[C17:index-wf] self.wf()'], ensures=[
         '[C17:find-is-search] res matches Some(r) ==> search(self.ids(), self.rows(), id, 0) == Some(r as nat)',
-        '[C17:find-is-search] res is None ==> search(self.ids(), self.rows(), id, 0) is None',
+        '[C17:find-is-search] res is None && id != 0 ==> search(self.ids(), self.rows(), id, 0) is None',
         f'[C17:find-sound] res matches Some(r) ==> exists|s: int| 0 <= s < {N} && self.id_at(s) == id && self.row_at(s) == r',
         '[C17:find-absent] !present(self.ids(), id as nat) ==> res is None',
-        # an all-zero signature marks an unused slot: the key 0 is never "present" (FAILS on the pinned tree: finding F-index-3)
+        # an all-zero signature marks an unused slot: the key 0 is never "present" (finding F-index-3, fixed in /repo 9360055)
         '[C17:find-zero-id-absent] id == 0 ==> res is None',
         f'[C17:find-is-scan] open_addressed(self.ids()) && id != 0 ==> forall|s: int| 0 <= s < {N} && self.id_at(s) == id ==> res == Some(self.row_at(s) as u32)',
     ], canary=True, attrs='#[verifier::loop_isolation(false)]',
@@ -186,7 +242,7 @@ use vstd::std_specs::iter::IteratorSpec;''')
                   'hash1 as int == probe(id, self.slot_count as int, vit.index@ as int), hash1 <= mask, '
                   'hash2 as int == probe_stride(id, self.slot_count as int), hash2 <= mask + 1, '
                   'search(self.ids(), self.rows(), id, 0) == search(self.ids(), self.rows(), id, vit.index@ as int),'},
-        before=[('if self.slot_count == 0 {', 'proof { lemma_search_sound(self.ids(), self.rows(), id, 0); '
+        before=[('if self.slot_count == 0 || id == 0 {', 'proof { lemma_search_sound(self.ids(), self.rows(), id, 0); '
                  'assert forall|s: int| open_addressed(self.ids()) && id != 0 && 0 <= s < self.v_slot_count() as int && #[trigger] self.id_at(s) == id '
                  'implies search(self.ids(), self.rows(), id, 0) == Some(self.row_at(s)) by { lemma_search_complete(self.ids(), self.rows(), s); } }'),
                 ('let mut hash1 = id & mask;', 'proof { lemma_mask_is_mod(id, self.slot_count); lemma_mask_is_mod(id >> 32, self.slot_count); lemma_stride(id, self.slot_count); }'),
@@ -347,7 +403,7 @@ pub type Offset = usize;''')
         f'[C01:iter-finish] {OI}.len == 0 ==> res matches Ok(None)',
         f'[C01:iter-err-empties] res is Err ==> {FI}.len == 0',
         f'[C01:iter-progress] res matches Ok(Some(_)) ==> {FI}.len < {OI}.len',
-        f'[C01:frame] {FI}.root == {OI}.root && {FI}.be == {OI}.be && ({FI}.len == 0 || within({OI}, {FI}))',
+        f'[C01:frame] inside({OI}, {FI})',
         '[C17:aranges-iter-offset][C10:view] final(self).wf() && (res is Ok ==> final(self).base() == old(self).base())',
         f'[C17:aranges-header-consume] res matches Ok(Some(h)) ==> ({{ {LET} adv(b0, {FI}, (ils + len) as nat) }})',
     ] + [''.join(f'[{t}]' for t in parse_tags(c)[0]) + ' res matches Ok(Some(h)) ==> ' + parse_tags(c)[1] for c in HC], canary=True)
@@ -377,7 +433,7 @@ pub type Offset = usize;''')
             f'&& e.v_end() == 0 && !(e.v_begin() == 0 && e.v_length() == 0) && adv(b0, {FI}, off + 2 * a) }})',
             f'[C17:aranges-end] res matches Ok(None) ==> ({{ {LET} b0.len < off + 2 * a && {FI}.len == 0 }})',
             '[C01:no-error] res is Ok',
-            f'[C01:frame] {FI}.root == {B0}.root && {FI}.be == {B0}.be && ({FI}.len == 0 || within({B0}, {FI}))',
+            f'[C01:frame] inside({B0}, {FI})',
         ]
     ei = ar.item(r'^impl<R: Reader> ArangeEntryIter<R>', label='ArangeEntryIter')
     ei.clean().own(OWN)
@@ -397,7 +453,7 @@ pub type Offset = usize;''')
     ], canary=True)
     A2 = 'old(self).v_encoding().address_size'
     ei.splice('next', ret='res', requires=['[C01:address-size-validated] old(self).wf()'], ensures=PROTO + [
-        f'[C01:frame] {FI}.root == {OI}.root && {FI}.be == {OI}.be && ({FI}.len == 0 || within({OI}, {FI}))',
+        f'[C01:frame] inside({OI}, {FI})',
         f'[C17:aranges-next] res matches Ok(Some(e)) ==> ({{ let a = {A2} as int; let p = {FI}.start - {OI}.start - 2 * a; p >= 0 && e.v_begin() == {OI}.u(p, a) && e.v_length() == {OI}.u(p + a, a) '
         f'&& !(e.v_begin() == 0 && e.v_length() == 0) && e.v_begin() < ones({A2}) - 1 && e.v_end() == e.v_begin() + e.v_length() && e.v_end() <= ones({A2}) }})',
     ], loops={0: f'invariant self.wf(), self.v_encoding() == old(self).v_encoding(), within({OI}, self.v_input()), decreases self.v_input().len'}, canary=True)
@@ -407,7 +463,16 @@ pub type Offset = usize;''')
     en.splice('parse', ret='res', requires=['[C01:address-size-validated] valid_address_size(encoding.address_size)'],
               ensures=tuple_clauses('old(input).rv()', 'final(input).rv()', 'encoding.address_size') + [
                   '[C01:iter-progress] res matches Ok(Some(_)) ==> final(input).rv().len < old(input).rv().len'],
-              decreases='old(input).rv().len', canary=True)
+              loops={0: 'invariant valid_address_size(address_size), address_size == encoding.address_size, tuple_length == 2 * address_size, '
+                        'within(old(input).rv(), input.rv()), '
+                        'arange_skip(old(input).rv(), address_size as nat) == (input.rv().start - old(input).rv().start) + arange_skip(input.rv(), address_size as nat), '
+                        'decreases input.rv().len'},
+              before=[('if tuple_length > input.len() {', 'let ghost cur = input.rv();')],
+              after=[('let range = Range { begin, end: 0 };',
+                      'proof { let a = address_size as nat; let nxt = RView { root: cur.root, start: cur.start + 2 * a, len: (cur.len - 2 * a) as nat, be: cur.be }; '
+                      'assert(nxt == input.rv()); assert(begin == 0 && length == 0 ==> arange_skip(cur, a) == 2 * a + arange_skip(nxt, a)); '
+                      'assert(!(begin == 0 && length == 0) ==> arange_skip(cur, a) == 0); }')],
+              canary=True)
     for acc, gh in [('address', 'res == self.v_begin()'), ('length', 'res == self.v_length()'), ('range', 'res.begin == self.v_begin() && res.end == self.v_end()')]:
         en.splice(acc, ret='res', ensures=[gh])
     sk.add('read::aranges', en)
@@ -499,7 +564,7 @@ use crate::vspec::*;''')
     tp.splice('parse_entry', ret='res', ensures=[
         f'[C17:lookup-entry] res matches Ok(Some(e)) ==> Self::entry_at({B0}, *header, e, {B1})',
         f'[C01:iter-progress] res matches Ok(Some(_)) ==> {B1}.len < {B0}.len',
-        f'[C01:frame] {B1}.root == {B0}.root && {B1}.be == {B0}.be && ({B1}.len == 0 || within({B0}, {B1}))'])
+        f'[C01:frame] inside({B0}, {B1})'])
     sk.add('read::lookup', tp)
     sk.add('read::lookup', lk.item(r'^pub struct LookupEntryIter<R, Parser>', label='LookupEntryIter').clean(rejrec=['R', 'Parser']))
     sk.add('read::lookup', LOOKUP_ITER_GHOST, label='LookupEntryIter(ghost)')
@@ -512,7 +577,7 @@ use crate::vspec::*;''')
         f'[C01:iter-progress] res matches Ok(Some(_)) ==> {F}.cur_len() + {F}.v_remaining().len < {O}.cur_len() + {O}.v_remaining().len '
         f'|| ({F}.v_remaining().len < {O}.v_remaining().len)',
         f'[C17:lookup-next] res matches Ok(Some(e)) ==> {F}.has_cur() && exists|b0: RView| Parser::entry_at(b0, {F}.v_cur_header(), e, {F}.v_cur_input())',
-        f'[C01:frame] {F}.v_remaining().root == {O}.v_remaining().root && ({F}.v_remaining().len == 0 || within({O}.v_remaining(), {F}.v_remaining()))',
+        f'[C01:frame] inside({O}.v_remaining(), {F}.v_remaining())',
     ], loops={0: f'invariant self.v_remaining().root == {O}.v_remaining().root, within({O}.v_remaining(), self.v_remaining()), '
                  f'self.cur_len() + self.v_remaining().len <= {O}.cur_len() + {O}.v_remaining().len || self.v_remaining().len < {O}.v_remaining().len, '
                  'decreases self.v_remaining().len, self.cur_len()'})
@@ -699,6 +764,8 @@ def widen_reader_address(ctx, sk):
             ctx.custom.append(('R-VIS', it._where(''), old, new))
             ctx.count('R-VIS')
             return
+        if isinstance(it, Item) and it.label == 'ReaderAddress' and new in it.text:
+            return      # core.py already applies the rule
     raise Lost('widen_reader_address: trait ReaderAddress not found')
 
 
